@@ -453,10 +453,9 @@ fn check_token_composites(t: &Token, u: &Token, rep: &mut Report, replay: Vec<St
                 }
             }};
         }
-        // a token that opens a container or is a break is not a complete item: containers of
-        // tokens are only well-defined for single-item tokens
-        let single = |t: &Token| !matches!(t, Token::Break | Token::BeginArray | Token::BeginMap | Token::BeginBytes | Token::BeginString | Token::Array(_) | Token::Map(_) | Token::Tag(_));
-        if single(t) && single(u) {
+        // tokens that are not complete items (break, container and tag heads, indefinite starts)
+        // are values of the type like any other: the property has no exclusion for them
+        {
             if !matches!(t, Token::Null) && !matches!(t, Token::Simple(22)) {
                 rt!("Option<Token>", Some(t.clone()), Option<Token>, |a, b| match (a, b) { (Some(x), Some(y)) => tok_equiv(x, y), (None, None) => true, _ => false });
             }
